@@ -603,6 +603,24 @@ class InterpStmts:
         s = st.copy()
         receivers = set()
         names = assigned_names(body_nodes, receivers)
+        # local closures called in the body may rebind (nonlocal) or mutate variables of the enclosing function
+        from .interp import FuncVal
+        seen_fn, work = set(), list(body_nodes)
+        while work:
+            root = work.pop()
+            for n in ast.walk(root):
+                if isinstance(n, ast.Call) and isinstance(n.func, ast.Name):
+                    fid = s.lookup_frame(n.func.id)
+                    fv = s.frames[fid][0].get(n.func.id) if fid is not None else None
+                    if isinstance(fv, FuncVal) and fv.frame is not None and id(fv.node) not in seen_fn:
+                        seen_fn.add(id(fv.node))
+                        inner_recv = set()
+                        inner_assigned = assigned_names(fv.node.body, inner_recv)
+                        nonlocal_names = {x for st_ in ast.walk(fv.node) if isinstance(st_, ast.Nonlocal) for x in st_.names}
+                        params = {a.arg for a in fv.node.args.args + fv.node.args.kwonlyargs}
+                        names |= (inner_assigned & nonlocal_names)
+                        receivers |= {r for r in inner_recv if r not in params and (r not in inner_assigned or r in nonlocal_names)}
+                        work.extend(fv.node.body)
         hints = (lc.get("vars") or {})
         for name in sorted(receivers - names):
             fid = s.lookup_frame(name)
